@@ -159,4 +159,83 @@ ModelVerdict(n, t, pos, off, P, q) ==
   LET keys == Deal(P, n, q)
       k2   == IF off /\ pos \in 1..n THEN Bump(keys, pos, 1, q) ELSE keys IN
   IF Accepts(CrossValues(k2, n, t, q)) THEN (IF off /\ pos \in 1..n THEN "undetectable" ELSE "accept") ELSE "detect"
+
+-----------------------------------------------------------------------------
+\* LARGE sets of evaluation points.  Identifiers are 16-bit in this code base and the property speaks of every n, so the laws
+\* below characterise the coefficients WITHOUT big rationals; they are proved by TLC in the small fields and in GF(46337) for
+\* large sets, and exactly the same laws are evaluated on the real code modulo the 254-bit group order by the harness.
+\*
+\*  moment law      for every set S and 0 <= k < |S| :  sum_{i in S} lambda_i(S) * i^k  =  [k = 0]
+\*                  (equivalently: the coefficients of S reconstruct P(0) for EVERY polynomial of degree < |S|; the law
+\*                   determines the coefficients uniquely -- Vandermonde --, so it is a complete characterisation)
+\*  increment law   lambda_i(S + {m}) = lambda_i(S) * m / (m - i),  lambda_i({i}) = 1
+\*                  (a chain of small rationals m / (m - i) that the trace specification recomputes exactly)
+
+InvTable(q) == [a \in 1..(q - 1) |-> Pow(a, q - 2, q)]
+
+\* Lagrange coefficient with a table of inverses (points must be distinct and nonzero modulo q)
+RECURSIVE LagTFrom(_, _, _, _, _)
+LagTFrom(i, pts, q, inv, m) == IF m > Len(pts) THEN 1
+                               ELSE IF pts[m] = i THEN LagTFrom(i, pts, q, inv, m + 1)
+                               ELSE ((((pts[m] % q) * inv[(pts[m] - i) % q]) % q) * LagTFrom(i, pts, q, inv, m + 1)) % q
+LagrangeT(i, pts, q, inv) == LagTFrom(i, pts, q, inv, 1)
+
+RECURSIVE LagSeqFrom(_, _, _, _)
+LagSeqFrom(pts, q, inv, m) == IF m > Len(pts) THEN <<>> ELSE <<LagrangeT(pts[m], pts, q, inv)>> \o LagSeqFrom(pts, q, inv, m + 1)
+LagSeq(pts, q, inv) == LagSeqFrom(pts, q, inv, 1)       \* coefficients parallel to pts
+
+RECURSIVE MomentQFrom(_, _, _, _, _)
+MomentQFrom(pts, lam, k, q, m) == IF m > Len(pts) THEN 0
+                                  ELSE (((lam[m] * Pow(pts[m] % q, k, q)) % q) + MomentQFrom(pts, lam, k, q, m + 1)) % q
+MomentLawQ(pts, lam, q) == \A k \in 0..(Len(pts) - 1) : MomentQFrom(pts, lam, k, q, 1) = (IF k = 0 THEN 1 ELSE 0)
+
+\* the increment law as the harness reports it: the ratio of consecutive coefficients along a chain, as a reduced rational
+RECURSIVE Without(_, _)
+Without(pts, i) == IF pts = <<>> THEN <<>> ELSE (IF Head(pts) = i THEN <<>> ELSE <<Head(pts)>>) \o Without(Tail(pts), i)
+ChainExpected(pts, i) == LET o == Without(pts, i) IN [j \in DOMAIN o |-> RatNorm(o[j], o[j] - i)]
+
+\* the demanded large sets: classes of windows for every size, plus the seeded random sets handed in
+SparseSet(s, top) == [j \in 1..s |-> 1 + ((j - 1) * (top - 1)) \div (s - 1)]
+BigClassPts(cls, s) == CASE cls = "prefix"    -> [j \in 1..s |-> j]
+                         [] cls = "window9"   -> [j \in 1..s |-> 8 + j]
+                         [] cls = "windowtop" -> [j \in 1..s |-> 65535 - s + j]
+                         [] cls = "sparse"    -> SparseSet(s, 65535)
+                         [] cls = "sparse46k" -> SparseSet(s, 46336)
+BigClasses == {"prefix", "window9", "windowtop", "sparse", "sparse46k"}
+BigCases(sizes, randsets) == {[cls |-> c, pts |-> BigClassPts(c, s)] : c \in BigClasses, s \in sizes}
+                             \cup {[cls |-> "random", pts |-> randsets[m]] : m \in DOMAIN randsets}
+PointSetOK(pts) == Len(pts) >= 2 /\ Ascending(pts) /\ \A m \in DOMAIN pts : pts[m] \in 1..65535
+SeqMax(pts) == pts[Len(pts)]     \* of an ascending sequence
+
+\* number of k-subsets without recursion over Pascal's triangle (values * n must stay below 2^31)
+RECURSIVE BinomMulUp(_, _)
+BinomMulUp(n, k) == IF k = 0 THEN 1 ELSE (BinomMulUp(n, k - 1) * (n - k + 1)) \div k
+BinomMul(n, k) == IF k < 0 \/ k > n THEN 0 ELSE BinomMulUp(n, IF k <= n - k THEN k ELSE n - k)
+
+\* the subsets over which a large dealing (n, t) is reconstructed / aggregated; "rand*" are seeded by the engine, their shape is
+\* checked.  "below" (t-1 points) is a canary: it must NOT reconstruct (conformance only)
+DealClasses == {"first", "last", "all", "randt", "randmore", "below"}
+DealShapeOK(cls, n, t, pts) ==
+  /\ ToSet(pts) \subseteq 1..n /\ Cardinality(ToSet(pts)) = Len(pts)
+  /\ CASE cls = "first"    -> pts = [j \in 1..t |-> j]
+       [] cls = "last"     -> pts = [j \in 1..t |-> n - t + j]
+       [] cls = "all"      -> pts = [j \in 1..n |-> j]
+       [] cls = "randt"    -> Len(pts) = t
+       [] cls = "randmore" -> Len(pts) >= t
+       [] cls = "below"    -> pts = [j \in 1..(t - 1) |-> j]
+       [] OTHER            -> FALSE
+
+\* cross-check model with the table of inverses (for DKGs too large for the Fermat inversions above)
+RECURSIVE RecTFrom(_, _, _, _, _)
+RecTFrom(sh, pts, q, inv, m) == IF m > Len(pts) THEN 0
+                                ELSE ((((sh[pts[m]] % q) * LagrangeT(pts[m], pts, q, inv)) % q) + RecTFrom(sh, pts, q, inv, m + 1)) % q
+ModelVerdictT(n, t, pos, off, P, q) ==
+  LET inv  == InvTable(q)
+      keys == Deal(P, n, q)
+      k2   == IF off /\ pos \in 1..n THEN Bump(keys, pos, 1, q) ELSE keys
+      cs   == ChooseSeq(n, t)
+      vals == {RecTFrom(k2, cs[m], q, inv, 1) : m \in DOMAIN cs} IN
+  IF Accepts(vals) THEN (IF off /\ pos \in 1..n THEN "undetectable" ELSE "accept") ELSE "detect"
+\* coefficients of the fixed polynomial used for the verdict, for any t (wraps around the handed-in coefficients)
+VerdictPoly(coeffs, t, q) == [i \in 1..t |-> (coeffs[((i - 1) % Len(coeffs)) + 1] % (q - 1)) + 1]
 =============================================================================
